@@ -5,6 +5,7 @@ void registerMime(std::map<std::string, vh::Op>& ops);
 void registerNet(std::map<std::string, vh::Op>& ops);
 void registerHeaders(std::map<std::string, vh::Op>& ops);
 void registerCookie(std::map<std::string, vh::Op>& ops);
+void registerParser(std::map<std::string, vh::Op>& ops);
 int main()
 {
     std::map<std::string, vh::Op> ops;
@@ -13,5 +14,6 @@ int main()
     registerNet(ops);
     registerHeaders(ops);
     registerCookie(ops);
+    registerParser(ops);
     return vh::runLoop(ops);
 }
